@@ -123,6 +123,33 @@ type c09Watch struct {
 	limit time.Duration
 }
 
+// c09SomebodyCanRun: does the goroutine dump show a goroutine with a frame of the repository under test that is not blocked on a lock, channel,
+// condition or select?
+func c09SomebodyCanRun(dump string) bool {
+	for _, blk := range strings.Split(dump, "\n\n") {
+		if !strings.Contains(blk, "inbucket/v3/pkg/") {
+			continue
+		}
+		head := blk
+		if i := strings.Index(blk, "\n"); i >= 0 {
+			head = blk[:i]
+		}
+		i, j := strings.Index(head, "["), strings.Index(head, "]")
+		if i < 0 || j < i {
+			continue
+		}
+		state := head[i+1 : j]
+		if k := strings.Index(state, ","); k >= 0 {
+			state = state[:k]
+		}
+		switch state {
+		case "running", "runnable", "syscall", "IO wait", "sleep":
+			return true
+		}
+	}
+	return false
+}
+
 // c09StartWatch starts the progress watchdog: an active slot without a sign of life for `limit` is a deadlock
 // (or an operation that does not return): goroutine dump excerpt, exit status 3.
 func c09StartWatch(limit time.Duration) *c09Watch {
@@ -140,6 +167,12 @@ func c09StartWatch(limit time.Duration) *c09Watch {
 					buf := make([]byte, 1<<20)
 					n := runtime.Stack(buf, true)
 					dump := string(buf[:n])
+					// a deadlock is goroutines WAITING for each other; on a loaded machine (and under the race detector) an operation can also
+					// simply not have been given the CPU.  As long as some goroutine inside the repository's code is running, runnable or in
+					// a system call, the worker is slow, not stuck: give it up to six times the limit before calling it a deadlock.
+					if now-l <= 6*int64(w.limit) && c09SomebodyCanRun(dump) {
+						continue
+					}
 					if len(dump) > 5000 {
 						dump = dump[:5000] + "…"
 					}
